@@ -359,6 +359,34 @@ func mutStructure(w *world, p *pair, rng *rand.Rand, tp tierParams, emit emitFn)
 			emit("ssz-gap-after-offsets", p.Key, m)
 		}
 	}
+	// an empty inner list written as four zero bytes ("first offset 0") instead of nothing
+	if p.Kind == "body" {
+		if rb, ok := refParseBody(p.Content); ok {
+			c := p.Content
+			o1 := int(le32(c[4:8]))
+			fixed := 8
+			if rb.Shanghai {
+				fixed = 12
+			}
+			end := len(c)
+			if rb.Shanghai {
+				end = int(le32(c[8:12]))
+			}
+			_ = end
+			if o1 == fixed { // no transactions
+				m := append([]byte{}, c[:fixed]...)
+				m = append(m, 0, 0, 0, 0)
+				m = append(m, c[fixed:]...)
+				for i := 1; i*4 < fixed; i++ {
+					binary.LittleEndian.PutUint32(m[4*i:], le32(c[4*i:])+4)
+				}
+				emit("ssz-empty-list-as-zero-offset:txs", p.Key, m)
+			}
+			if rb.Shanghai && int(le32(c[8:12])) == len(c) { // no withdrawals
+				emit("ssz-empty-list-as-zero-offset:withdrawals", p.Key, append(append([]byte{}, c...), 0, 0, 0, 0))
+			}
+		}
+	}
 	switch p.Kind {
 	case "header", "number":
 		mutStructHeader(w, p, rng, tp, emit)
